@@ -400,7 +400,7 @@ def oracle(ctx, deep=False, cal=False, only=None):
     rng = ctx.rng
     old_threads = numba.get_num_threads()
     numba.set_num_threads(max(1, min(old_threads, int(os.environ.get("VERIF_ORACLE_THREADS", "1")))))
-    budget = float(os.environ.get("C02_ORACLE_BUDGET_S", "0")) or (ctx.pick(100.0, 780.0) if not deep else 3000.0)
+    budget = float(os.environ.get("C02_ORACLE_BUDGET_S", "0")) or (ctx.pick(40.0, 600.0) if not deep else 3000.0)
     orders = (LOW_RUNGS if (ctx.thorough or deep) else []) + LADDER
     n_in, n_out = (ctx.pick(10, 24), ctx.pick(12, 30)) if not deep else (60, 80)
     n_fun = ctx.pick(2, 3) if not deep else 5
@@ -409,11 +409,12 @@ def oracle(ctx, deep=False, cal=False, only=None):
     if only:
         plan = [p for p in plan if p[0] in only]
     done = 0
+    jit_cpu = 0.0   # CPU time of the Numba compilation (first order of a mesh beyond 5 s): not charged to the budget
     counts = dict(inside=0, outside=0, near=0)
     try:
         for mi, (name, variant) in enumerate(plan):
-            if done >= 1 and time.process_time() - c_start > budget:
-                res.notes.append(f"CPU-time budget {budget:.0f}s reached after {done}/{len(plan)} meshes")
+            if done >= 1 and time.process_time() - c_start - jit_cpu > budget:
+                res.notes.append(f"CPU-time budget {budget:.0f}s (JIT excluded) reached after {done}/{len(plan)} meshes")
                 break
             t_mesh = time.time()
             mesh = build_mesh(name, variant, rng)
@@ -471,6 +472,7 @@ def oracle(ctx, deep=False, cal=False, only=None):
             per = {}   # (variant, order) -> (worst error, detail)
             for oi, order in enumerate(orders):
                 ev = Evaluator(api, P, order, use_global=(oi % 2 == 1))
+                c_order = time.process_time()
                 for vname, fn in builders.items():
                     wv = {True: (0.0, None), False: (0.0, None)}
                     for f in funs:
@@ -494,6 +496,8 @@ def oracle(ctx, deep=False, cal=False, only=None):
                         per[(vname, side, order)] = wv[side]
                         key = (vname, "inside" if side else "outside", order)
                         worst[key] = max(worst.get(key, 0.0), wv[side][0])
+                if oi == 0:
+                    jit_cpu += max(0.0, time.process_time() - c_order - 5.0)
                 if cal:
                     ctx.log("cal", mesh["desc"], grid.number_of_elements, order,
                             " ".join("%s=%.1e/%.1e" % (v_, per[(v_, True, order)][0], per[(v_, False, order)][0])
@@ -539,6 +543,7 @@ def oracle(ctx, deep=False, cal=False, only=None):
     res.stats["points_within_2h"] = counts["near"]
     res.stats["oracle_wall_s"] = round(time.time() - t_start, 1)
     res.stats["oracle_cpu_s"] = round(time.process_time() - c_start, 1)
+    res.stats["of_which_jit_cpu_s"] = round(jit_cpu, 1)
     return res
 
 
